@@ -214,13 +214,13 @@ class Scheduler:
         return self.x
 
 
-def explore(run_prefix, bound: int, on_exec, max_exec: int | None = None, deadline: float | None = None):
+def explore(run_prefix, bound: int, on_exec, max_exec: int | None = None, deadline: float | None = None, start=None):
     """deviation(preemption)-bounded exploration.
 
     run_prefix(prefix) -> Execution ;  on_exec(execution) is called for every execution.
     Returns (executions, complete) - complete is False when max_exec / deadline stopped the search.
     """
-    stack = [[]]
+    stack = [list(start or [])]
     n = 0
     while stack:
         if (max_exec is not None and n >= max_exec) or (deadline is not None and time.time() > deadline):
@@ -241,6 +241,20 @@ def explore(run_prefix, bound: int, on_exec, max_exec: int | None = None, deadli
             if x.choices[i] != 0 and running_enabled:
                 pre += 1
     return n, True
+
+
+def shards(x0: Execution, bound: int):
+    """first-deviation prefixes of the default execution: the subtrees below them partition everything but the default run"""
+    out = []
+    pre = 0
+    for i, (_, n_alt, running_enabled, _) in enumerate(x0.points):
+        cost = pre + (1 if running_enabled else 0)
+        if cost <= bound:
+            for alt in range(1, n_alt):
+                out.append(x0.choices[:i] + [alt])
+        if x0.choices[i] != 0 and running_enabled:
+            pre += 1
+    return out
 
 
 def selftest():
